@@ -216,6 +216,21 @@ Proof. reflexivity. Qed.
 Lemma exec_lift {A} (r : res A) p : exec (lift r) p = (r, p).
 Proof. reflexivity. Qed.
 
+(* the ideal cursor never moves backwards *)
+Lemma exec_mono {A} (pr : prog A) : forall s r s', exec pr s = (r, s') -> s <= s'.
+Proof.
+  induction pr as [r0 | o k IH]; intros s r s' H.
+  - unfold exec in H. cbn [run] in H. injection H as _ <-. lia.
+  - unfold exec in H. cbn [run] in H. destruct (rstep R o s) as [a s1] eqn:E.
+    apply IH in H. cbn [rstep cursor] in E. unfold cursor_step in E.
+    destruct o; try (injection E as _ <-; lia).
+    + destruct ((n =? 0) || (s + n <=? ilen inp)); injection E as _ <-; lia.
+    + destruct lenient.
+      * destruct (s + n <=? ms); [injection E as _ <-; lia|].
+        destruct ((I64MAX' <? n) && (U64MAX' <? s + n)); injection E as _ <-; lia.
+      * destruct (s + n <=? ilen inp); injection E as _ <-; lia.
+Qed.
+
 Lemma length_iread' : forall n pos, length (iread inp pos n) = n.
 Proof. induction n as [|n IH]; intros pos; cbn [iread length]; [reflexivity | now rewrite IH]. Qed.
 
@@ -659,4 +674,152 @@ Proof.
     replace (e - (p + u)) with (e - p - u) by lia. reflexivity.
 Qed.
 
+
+(* ================================================================================================ *)
+(* 5. the same facts as inversions of a successful run *)
+
+Lemma ebind_ok_inv {A B} (x : res A * N) (f : A -> N -> res B * N) b q :
+  ebind x f = (Ok b, q) -> exists a s, x = (Ok a, s) /\ f a s = (Ok b, q).
+Proof. destruct x as [[a| | | |] s]; cbn [ebind]; try discriminate. intros H. now exists a, s. Qed.
+
+Lemma exec_bind_ok {A B} (pr : prog A) (f : A -> prog B) p b q :
+  exec (pbind pr f) p = (Ok b, q) -> exists a s, exec pr p = (Ok a, s) /\ exec (f a) s = (Ok b, q).
+Proof. rewrite exec_bind. apply ebind_ok_inv. Qed.
+
+Lemma linv_in_hdr o fr : fits fr (o + 8) -> linv (in_hdr o) fr (o + 8).
+Proof. intros H. split; [exact H|]. unfold in_hdr. cbn [ainv]. lia. Qed.
+
+Lemma has_remaining_ok a fr p r q : linv a fr p -> exec (has_remaining (L a fr p)) p = (Ok r, q) ->
+  padreq a fr p /\ q = npos a p
+  /\ r = (match nst a p with AIdle _ => more fr (npos a p) | _ => true end, L (nst a p) fr (npos a p)).
+Proof.
+  intros Hl H. destruct (has_remaining_spec a fr p Hl) as [(Hp & E) | (_ & Hx)];
+    [|exfalso; eapply perr_not_ok; eauto].
+  rewrite E in H. injection H as <- <-. auto.
+Qed.
+
+Lemma read_any_header_ok a fr p r q : linv a fr p -> exec (read_any_header (L a fr p)) p = (Ok r, q) ->
+  let o := loff a p in
+  padreq a fr p /\ atb a p /\ hdr_ok fr o /\ r = (hdr_at o, L (in_hdr o) fr (o + 8)) /\ q = o + 8.
+Proof.
+  intros Hl H o. destruct (read_any_header_spec a fr p Hl) as [(Hp & Hb & Hh & E) | (_ & Hx)];
+    [|exfalso; eapply perr_not_ok; eauto].
+  rewrite E in H. injection H as <- <-. auto.
+Qed.
+
+Lemma read_header_ok name a fr p r q : linv a fr p -> exec (read_header name (L a fr p)) p = (Ok r, q) ->
+  let o := loff a p in
+  padreq a fr p /\ atb a p /\ hdr_ok fr o /\ ch_name (hdr_at o) = name
+  /\ r = (hdr_at o, L (in_hdr o) fr (o + 8)) /\ q = o + 8.
+Proof.
+  intros Hl H o. destruct (read_header_spec name a fr p Hl) as [(Hp & Hb & Hh & Hn & E) | (_ & Hx)];
+    [|exfalso; eapply perr_not_ok; eauto].
+  rewrite E in H. injection H as <- <-. auto 6.
+Qed.
+
+Lemma peek_header_ok a fr p r q : linv a fr p -> exec (peek_header (L a fr p)) p = (Ok r, q) ->
+  let o := loff a p in
+  padreq a fr p /\ atb a p /\
+  ((hdr_ok fr o /\ r = (Some (ch_name (hdr_at o)), L (APeek (hdr_at o)) fr (o + 8)) /\ q = o + 8)
+   \/ (more fr o = false /\ q = o /\ exists n, r = (None, L (AIdle n) fr o))).
+Proof.
+  intros Hl H o.
+  destruct (peek_header_spec a fr p Hl) as [(Hp & Hb & Hh & E) | [(Hp & Hb & Hm & n & E) | (_ & Hx)]];
+    [| |exfalso; eapply perr_not_ok; eauto]; rewrite E in H; injection H as <- <-.
+  - split; [exact Hp|]. split; [exact Hb|]. left. auto.
+  - split; [exact Hp|]. split; [exact Hb|]. right. split; [exact Hm|]. split; [reflexivity|]. now exists n.
+Qed.
+
+Lemma read_data_ok n h e fr p r q : 0 < n -> linv (AIn h e) fr p ->
+  exec (read_data n (L (AIn h e) fr p)) p = (Ok r, q) ->
+  p + n <= e /\ fits fr (p + n) /\ p + n <= ilen inp
+  /\ r = (iread inp p (N.to_nat n), L (AIn h e) fr (p + n)) /\ q = p + n.
+Proof.
+  intros Hn Hl H. destruct (read_data_spec n h e fr p Hn Hl) as [(H1 & H2 & H3 & E) | (_ & Hx)];
+    [|exfalso; eapply perr_not_ok; eauto].
+  rewrite E in H. injection H as <- <-. auto 6.
+Qed.
+
+(* the state in which a chunk (h, body end e) is left when its body has been dealt with *)
+Definition done_he (h : chdr) (e : N) (a' : astate) (p' : N) : Prop :=
+  (a' = AIn h e /\ p' = e)
+  \/ (exists n, a' = AIdle n /\ p' = e + pad_of h /\ (N.odd (ch_len h) = true -> iget inp e = x00)).
+
+Lemma skip_data_ok h e fr p l' p' : linv (AIn h e) fr p ->
+  exec (skip_data (L (AIn h e) fr p)) p = (Ok l', p') ->
+  exists a', l' = L a' fr p' /\ linv a' fr p' /\ fits fr e /\ e <= p' /\ done_he h e a' p'.
+Proof.
+  intros Hl H. pose proof Hl as [Hf Ha]. cbn [ainv] in Ha. destruct (N.eq_dec p e) as [->|Hne].
+  - destruct (skip_data_boundary (AIn h e) fr e Hl) as [(Hp & E) | (_ & Hx)];
+      [cbn [atb]; lia | discriminate | | exfalso; eapply perr_not_ok; eauto].
+    rewrite E in H. injection H as <- <-. destruct (linv_settle _ fr e Hl Hp) as (Hl' & _ & Hle).
+    cbn [nst npos] in *. replace (e <=? e) with true in * by lia.
+    exists (AIdle (ch_name h)). split; [reflexivity|]. split; [exact Hl'|]. split; [exact Hf|]. split; [exact Hle|].
+    right. exists (ch_name h). split; [reflexivity|]. split; [reflexivity|]. intros O.
+    apply Hp. cbn [npos]. replace (e <=? e) with true by lia. unfold pad_of. rewrite O. reflexivity.
+  - destruct (skip_data_body h e fr p Hf ltac:(lia)) as [(H1 & H2 & E) | (_ & Hx)];
+      [|exfalso; eapply fails_not_ok; eauto].
+    rewrite E in H. injection H as <- <-.
+    exists (AIn h e). split; [reflexivity|]. split; [split; [exact H1 | cbn [ainv]; lia]|].
+    split; [exact H1|]. split; [lia|]. left; auto.
+Qed.
+
 End Cur.
+
+(* ================================================================================================ *)
+(* 6. summary: the reader stack is a cursor over nested regions (C06_reader_refines_region, shared with C15) *)
+Theorem reader_refines_region inp lenient ms a fr p : linv inp a fr p ->
+  let run {A} (pr : prog A) := exec inp lenient ms pr p in
+  let o := loff a p in
+  (* the lazy padding check: the pending pad byte must be inside every enclosing body, present and zero *)
+  ((padreq inp a fr p /\ run (read_padding (L a fr p)) = (Ok (L (nst a p) fr (npos a p)), npos a p))
+   \/ (~ padreq inp a fr p /\ perr_at (run (read_padding (L a fr p)))))
+  (* has_remaining: inside a body, or another byte inside every enclosing body and inside the input *)
+  /\ ((padreq inp a fr p /\
+       run (has_remaining (L a fr p)) =
+         (Ok (match nst a p with AIdle _ => more inp fr (npos a p) | _ => true end, L (nst a p) fr (npos a p)), npos a p))
+      \/ (~ padreq inp a fr p /\ perr_at (run (has_remaining (L a fr p)))))
+  (* read_any_header: the 8 bytes at the logical offset o, which must lie inside every enclosing body and the input *)
+  /\ ((padreq inp a fr p /\ atb a p /\ hdr_ok inp fr o /\
+       run (read_any_header (L a fr p)) = (Ok (hdr_at inp o, L (in_hdr inp o) fr (o + 8)), o + 8))
+      \/ (~ (padreq inp a fr p /\ atb a p /\ hdr_ok inp fr o) /\ perr_at (run (read_any_header (L a fr p)))))
+  (* read_header name: the same, and the name must match *)
+  /\ (forall name,
+      (padreq inp a fr p /\ atb a p /\ hdr_ok inp fr o /\ ch_name (hdr_at inp o) = name /\
+       run (read_header name (L a fr p)) = (Ok (hdr_at inp o, L (in_hdr inp o) fr (o + 8)), o + 8))
+      \/ (~ (padreq inp a fr p /\ atb a p /\ hdr_ok inp fr o /\ ch_name (hdr_at inp o) = name)
+          /\ perr_at (run (read_header name (L a fr p)))))
+  (* peek_header: the header is read ahead, or there is nothing left *)
+  /\ ((padreq inp a fr p /\ atb a p /\ hdr_ok inp fr o /\
+       run (peek_header (L a fr p)) = (Ok (Some (ch_name (hdr_at inp o)), L (APeek (hdr_at inp o)) fr (o + 8)), o + 8))
+      \/ (padreq inp a fr p /\ atb a p /\ more inp fr o = false /\
+          exists n, run (peek_header (L a fr p)) = (Ok (None, L (AIdle n) fr o), o))
+      \/ (~ (padreq inp a fr p /\ atb a p /\ (hdr_ok inp fr o \/ more inp fr o = false))
+          /\ perr_at (run (peek_header (L a fr p)))))
+  (* inside a chunk whose body ends at e *)
+  /\ (forall h e, a = AIn h e ->
+      (forall n, 0 < n ->
+         (p + n <= e /\ fits fr (p + n) /\ p + n <= ilen inp /\
+          run (read_data n (L a fr p)) = (Ok (iread inp p (N.to_nat n), L (AIn h e) fr (p + n)), p + n))
+         \/ (~ (p + n <= e /\ fits fr (p + n) /\ p + n <= ilen inp) /\ perr_at (run (read_data n (L a fr p)))))
+      /\ (p < e ->
+          (fits fr e /\ skip_ok inp lenient ms p (e - p) /\ run (skip_data (L a fr p)) = (Ok (L (AIn h e) fr e), e))
+          \/ (~ (fits fr e /\ skip_ok inp lenient ms p (e - p)) /\ fails (run (skip_data (L a fr p)))))
+      /\ run (read_body (L a fr p)) =
+           (Ok (iread inp p (N.to_nat (upto inp fr p (e - p))), L (AIn h e) fr (p + upto inp fr p (e - p))),
+            p + upto inp fr p (e - p)))
+  (* a child reader is a level whose innermost enclosing region is this chunk's body *)
+  /\ (forall h e, a = AIn h e -> child (L a fr p) = L (AIdle (ch_name h)) ((h, e) :: fr) p).
+Proof.
+  intros Hl. cbv zeta.
+  split; [apply read_padding_spec; exact Hl|].
+  split; [apply has_remaining_spec; exact Hl|].
+  split; [apply read_any_header_spec; exact Hl|].
+  split; [intros name; apply read_header_spec; exact Hl|].
+  split; [apply peek_header_spec; exact Hl|].
+  split.
+  - intros h e ->. split; [intros n Hn; apply read_data_spec; assumption|].
+    split; [intros Hlt; apply skip_data_body; [apply Hl | exact Hlt]|].
+    apply read_body_spec. exact Hl.
+  - intros h e ->. apply child_L.
+Qed.
